@@ -248,6 +248,41 @@ example :
       some [("n".toList, .scalar (.int 5))] := by
   decide
 
+/-! ## end to end: the file a save writes, and a crash in the middle of the next save -/
+
+/-- **save to a file, load it back** (compressed or not; the serializer and zstd are the opaque `Codec`
+    with their round-trip as hypotheses): the loader returns a snapshot whose restored router answers
+    every key like the saved store (embedding dimension below the tensor-train threshold) -/
+theorem file_save_load_get_exact (C : Codec RouterSnap) (hdec : ∀ s, C.dec (C.enc s) = some s)
+    (hz : ∀ b, C.unzip (C.zip b) = some b) (compress : Bool)
+    (ttOk : List Nat → Bool) (ttRecon : List Nat → List Nat) (r : Router) (h : r.WF)
+    (hd : r.emb.dim < TT_MIN_DIMENSION) (hc : r.entryCount < U64) (key : Name) :
+    ∃ s, loadBytes C (fileBytes C compress r.entryCount (r.snapshot ttOk).2) = .ok s ∧
+      (Router.restore ttRecon s).peek key = r.peek key ∧ (Router.restore ttRecon s).exists key = r.exists key ∧
+      (Router.restore ttRecon s).scan key = r.scan key :=
+  ⟨(r.snapshot ttOk).2, load_saved_ok C hdec hz compress r.entryCount hc _,
+    snapshot_restore_get_exact_short_dim ttOk ttRecon r h hd key, snapshot_restore_exists ttOk ttRecon r h key,
+    snapshot_restore_scan ttOk ttRecon r h key⟩
+
+/-- **a crash during the save of `new` over the snapshot of `old`**: at every crash state of the save's
+    file operations, loading the path gives a store that answers EVERY key like `old` or EVERY key like
+    `new` — one of the two for all keys at once, never a mixture, never an error -/
+theorem crash_during_save_old_or_new_store {π : Type} [DecidableEq π] (C : Codec RouterSnap)
+    (hdec : ∀ s, C.dec (C.enc s) = some s) (hz : ∀ b, C.unzip (C.zip b) = some b)
+    (tmp path : π) (hne : tmp ≠ path) (fs0 : FS π)
+    (ttOk : List Nat → Bool) (ttRecon : List Nat → List Nat) (old new : Router) (ho : old.WF) (hn : new.WF)
+    (hdo : old.emb.dim < TT_MIN_DIMENSION) (hdn : new.emb.dim < TT_MIN_DIMENSION)
+    (hold : loadPath C fs0 path = .ok (old.snapshot ttOk).2) (compress : Bool) (hc : new.entryCount < U64) :
+    ∀ st ∈ crashStates fs0 (saveOps tmp path (encodeHeader (newHeader compress new.entryCount))
+        (if compress then C.zip (C.enc (new.snapshot ttOk).2) else C.enc (new.snapshot ttOk).2)),
+      ∃ s, loadPath C st path = .ok s ∧
+        ((∀ key, (Router.restore ttRecon s).peek key = old.peek key) ∨
+         (∀ key, (Router.restore ttRecon s).peek key = new.peek key)) := by
+  intro st hst
+  rcases save_crash_atomic_old_or_new C hdec hz tmp path hne fs0 _ (new.snapshot ttOk).2 hold compress new.entryCount hc st hst with h | h
+  · exact ⟨_, h, Or.inl (fun key => snapshot_restore_get_exact_short_dim ttOk ttRecon old ho hdo key)⟩
+  · exact ⟨_, h, Or.inr (fun key => snapshot_restore_get_exact_short_dim ttOk ttRecon new hn hdn key)⟩
+
 /-! ## the store-level loops: `restore_from_bytes`, the v2 loader, the quantising format -/
 
 /-- **`restore_from_bytes`, key by key**: whatever the store held before, for every key that is not a
